@@ -375,6 +375,7 @@ def corpus():
     H = [("set", b"host", [b"example.com"])]
     return [
         case(),
+        case(b"GET\n", b"/"), case(b"GET", b"/path\n"), case(b"GET\r", b"/"), case(b"GET", b"/path\x7f"),   # trailing invalid byte
         case(b"POST", b"/x?y=1", h=H + [("set", b"x-a", [b"1", b"two words"])], b="u", s=[W(b"abc"), ["ret"], W(b"defgh" * 4), ["ok"]]),
         # an empty write in a body of unknown length
         case(b"POST", b"/x", b="u", s=[W(b"abc"), W(b""), W(b"def"), ["ret"], ["ok"]]),
@@ -399,6 +400,13 @@ METHODS_BAD = [b"", b"GET ", b" GET", b"G ET", b"GET\r\n", b"GET\r\nX: y", b"G\n
     [b"G" + bytes([d]) + b"T" for d in b'"(),/:;<=>?@[\\]{}']
 URIS_OK = [b"/", b"/a/b?c=d&e=f", b"*", b"http://example.com/x", b"/%20%0d%0a", b"/~!@#$%^&*()_+{}|:\"<>?`-=[]\\;',.", b"x", b"/" + b"a" * 300]
 URIS_BAD = [b"", b"/a b", b"/ HTTP/1.1\r\nHost: evil\r\n\r\n", b"/a\r\n", b"/a\nb", b"/a\rb", b"/\t", b"/\x00", b"/\x7f", b"/\x80", b"/\xff", b" /", b"/ "]
+# every byte that is not allowed, at the start, in the middle and at the END of an otherwise valid method / target
+# (a trailing LF alone is what a `$`-anchored regex lets through: seeded change C24-1)
+_TCHAR = set(b"!#$%&'*+-.^_`|~0123456789ABCDEFGHIJKLMNOPQRSTUVWXYZabcdefghijklmnopqrstuvwxyz")
+METHODS_BAD += [w for d in range(256) if d not in _TCHAR
+                for w in (b"GET" + bytes([d]), bytes([d]) + b"GET", b"GE" + bytes([d]) + b"T")]
+URIS_BAD += [w for d in range(256) if not 0x21 <= d <= 0x7e
+             for w in (b"/path" + bytes([d]), bytes([d]) + b"/path", b"/pa" + bytes([d]) + b"th")]
 NAMES = [b"x-a", b"X-A", b"accept", b"Accept-Encoding", b"te", b"etag", b"Content-Type", b"cOOkie", b"connection", b"user-agent", b"x.y_z!", b"a"]
 VALS_OK = [b"1", b"a b", b"a\tb", b"", b"\x80\xff", b"text/html; q=0.5", b"x" * 300, b"close", b"keep-alive", b"a:b", b"\"q\"", b"0"]
 VALS_BAD = [b" lead", b"trail ", b"\ttab\t", b"a\r\nX: y", b"a\nb", b"a\rb", b"\r\n", b"a\r\n", b"a\x00b", b"a\x0bb", b"a\x0cb", b"a\x7fb", b"\x01", b" "]
